@@ -100,7 +100,7 @@ func (c *Ctx) c03InterfaceRoute(pj *simdjson.ParsedJson, pc *PCase) {
 
 func checkC03(c *Ctx) {
 	r := c.Rng
-	c.Ev.Coverage.Rule = "number literals as array element and as object value; type tag, payload word and float flags read through the API (Type/Int/Uint/FloatFlags, and the same positions through Interface()) vs the Coq specification num_spec (type cascade + correctly rounded binary64 built on Flocq's division/rounding core), and parseNumber directly vs the model. Streams: N1 exhaustive small grammar; N2 integer boundaries (2^63, 2^64 and neighbours, 19..22-character integers); N3 exact decimal midpoints between adjacent doubles (up to ~770 digits) and their two neighbours, for structured and random doubles; N4 exponent spellings, long fractions, underflow/overflow. non-trivial = literal accepted by the spec; distinct = by literal text"
+	c.Ev.Coverage.Rule = "number literals as array element and as object value; type tag, payload word and float flags read through the API (Type/Int/Uint/FloatFlags, and the same positions through Interface(), with the cross-type accessors Int/Uint/Float judged by exact arithmetic) vs the Coq specification num_spec (type cascade + correctly rounded binary64 built on Flocq's division/rounding core), and parseNumber directly vs the model. Streams: N1 exhaustive small grammar; N2 integer boundaries (2^63, 2^64 and neighbours, 19..22-character integers); N3 exact decimal midpoints between adjacent doubles (up to ~770 digits) and their two neighbours, for structured and random doubles; N4 exponent spellings, long fractions, underflow/overflow. non-trivial = literal accepted by the spec; distinct = by literal text"
 	flags := ChkVerdict | ChkDump | ChkModel | ChkNoPanic | ChkCopyModes
 	// known finding K3: Go's strconv (decimal.set) keeps 800 digits and loses the
 	// position of the decimal point when the integer part is longer than that
@@ -128,6 +128,10 @@ func checkC03(c *Ctx) {
 			for _, o := range outs {
 				if !o.out.Err && o.copy && o.avx512 == hwAVX512 {
 					c.c03InterfaceRoute(o.out.PJ, pc)
+					// Int()/Uint()/Float() on the position, judged by exact arithmetic on the value its
+					// own accessor returns (a uint64 read through Float() is that number, not its
+					// two's-complement twin)
+					c.convJudgeAll(o.out.PJ, pc.Doc, 3)
 				}
 			}
 		})
